@@ -48,7 +48,8 @@ func init() {
 			"uncompilable-looking patterns, discriminators, deepObject, recursive components, path items without operations, trailing-slash and templated servers) × " +
 			"byte-level requests/responses (any method, verbatim-template and mutated paths, hostile queries, content types and bodies) through both routers, " +
 			"ValidateRequest (every registered body decoder incl. YAML with non-string keys / non-finite floats, zip, csv, multipart with YAML parts; NaN/Inf parameter texts; deepObject array indexes), " +
-			"error text / ConvertErrors / ValidationErrorEncoder+DefaultErrorEncoder, ValidateResponse, Validator.Middleware, ValidationHandler (file-loaded); non-trivial = the model reports ≥1 feature/branch",
+			"error text / ConvertErrors / ValidationErrorEncoder+DefaultErrorEncoder, ValidateResponse, Validator.Middleware, ValidationHandler (file-loaded); " +
+			"histories: the same exchange 2–4 times in one fresh child process (field repeat) over documents with patterns in every position document validation does not compile (texts Go's regexp accepts and rejects) and over exchanges of the general stream; non-trivial = the model reports ≥1 feature/branch",
 		Exhaustive: true,
 		Gen:        genC10,
 		Run:        runC10,
@@ -89,6 +90,11 @@ func runC10(c hx.Case) any {
 		}
 		// a huge bracketed index can make the decoder allocate without bound (F-C10-8): never in this process
 		if rq, ok := c["req"].(map[string]any); ok && c10HugeIndex(jstr(rq, "query")) {
+			return hx.RunIsolated("C10", c, 60000)
+		}
+		// a history (the same exchange several times in one process) is about state the library keeps between calls
+		// in process-wide variables: it starts from a fresh process, so that a replay file is self-contained
+		if c10Repeat(c) >= 2 {
 			return hx.RunIsolated("C10", c, 60000)
 		}
 	}
@@ -625,7 +631,40 @@ func c10RouteKind(err error) string {
 	return "err"
 }
 
+// c10Repeat: how many times the exchange of a traffic case is run in one process (field "repeat", 1..4)
+func c10Repeat(c hx.Case) int {
+	n := c10Int(c["repeat"])
+	if n < 1 {
+		return 1
+	}
+	if n > 4 {
+		return 4
+	}
+	return n
+}
+
+// c10RunTraffic runs the exchange "repeat" times in this process: document loaded and validated, router built, route
+// found, request and response validated, errors rendered — every round on fresh objects, so that whatever differs in a
+// later round comes from state the library keeps between calls (process-wide caches). The first round that does not
+// return normally is the observation (with its number).
 func c10RunTraffic(c hx.Case) any {
+	n := c10Repeat(c)
+	var out any
+	for i := 1; i <= n; i++ {
+		out = c10RunTrafficOnce(c)
+		if m, ok := out.(map[string]any); ok {
+			if bad, _ := c10Bad(m); bad {
+				if n > 1 {
+					m["round"] = i
+				}
+				return m
+			}
+		}
+	}
+	return out
+}
+
+func c10RunTrafficOnce(c hx.Case) any {
 	// the zip decoder is exported but not registered by the library: a user registers it like this
 	c10ZipOnce.Do(func() { openapi3filter.RegisterBodyDecoder("application/zip", openapi3filter.ZipFileBodyDecoder) })
 	out := map[string]any{"kind": "ok"}
@@ -929,6 +968,9 @@ func cmpC10x(c hx.Case, impl any, reply map[string]any) hx.Verdict {
 			}
 			if !v.IM {
 				v.Detail += " (not an outcome the model allows for this input)"
+				if rd := c10Int(im["round"]); rd > 0 {
+					v.Detail += fmt.Sprintf(" in round %d of %d of the same exchange in one process", rd, c10Repeat(c))
+				}
 			}
 		}
 		if mr, ok := model["route"].(string); ok && !bad {
@@ -1014,6 +1056,86 @@ func genC10(ctx *hx.Ctx, emit func(hx.Case)) {
 	for i := 0; i < n; i++ {
 		emit(c10RandTraffic(r))
 	}
+	// ---- histories: the same exchange several times in one (fresh) process
+	nh := 160
+	if ctx.Thorough() {
+		nh = 1500
+	}
+	for i := 0; i < nh; i++ {
+		if i%4 == 3 {
+			// any exchange of the general stream, twice
+			c := c10RandTraffic(r)
+			c["repeat"] = 2
+			emit(c)
+			continue
+		}
+		emit(c10HistoryTraffic(r))
+	}
+}
+
+// schemas whose validation goes through state kept between calls: patterns (the process-wide cache of compiled
+// patterns), in every position where document validation does not compile them first (no `type`, or a type other than
+// string next to them), with texts Go's regexp accepts and texts it rejects (ECMA look-around, back-references,
+// possessive quantifiers, repeat counts above 1000, unknown classes, unbalanced brackets); plus typed, compilable ones
+var c10StatePool = []string{
+	`{"pattern":"^(?!tmp-)[a-z-]+$"}`, `{"pattern":"(?<=a)b"}`, `{"pattern":"(a)\\1"}`, `{"pattern":"a++"}`, `{"pattern":"a{2000}"}`,
+	`{"pattern":"\\p{Foo}"}`, `{"pattern":"[a-"}`, `{"pattern":"("}`, `{"pattern":"^[a-z]+$"}`, `{"pattern":"\\u00E9"}`,
+	`{"type":"string","pattern":"^[a-z]+$"}`, `{"type":"string","pattern":"^(a|b)*$","minLength":1}`,
+	`{"pattern":"(?=x)","minLength":1}`, `{"pattern":"(?!x)","nullable":true}`, `{"pattern":"a**","enum":["abc","x"]}`,
+	`{"properties":{"n":{"pattern":"(?!x)"}}}`, `{"type":"object","properties":{"n":{"pattern":"[z-a]"}}}`,
+	`{"type":"array","items":{"pattern":"(?<!x)y"}}`, `{"items":{"pattern":"x{1001}"}}`,
+	`{"additionalProperties":{"pattern":"(?P<n>a)(?P<n>b)"}}`,
+	`{"oneOf":[{"pattern":"(?!a)"},{"type":"integer"}]}`, `{"anyOf":[{"pattern":"\\Q"},{"pattern":"(?!b)"}]}`,
+	`{"allOf":[{"pattern":"(?!c)"},{"minLength":1}]}`, `{"not":{"pattern":"(?!d)"}}`,
+	`{"type":"integer","pattern":"(?!e)"}`, `{"type":"object","pattern":"(?!f)"}`,
+}
+
+var c10StateBodies = []string{`"abc"`, `"tmp-x"`, `{"n":"abc"}`, `["abc","y"]`, `{"k":"abc"}`, `""`, `1`, `null`, `{"n":1}`}
+
+// c10HistoryTraffic: a small document whose request body, query parameter, header parameter, response body and
+// response header are described by schemas of c10StatePool, string-valued traffic for each of them, and the exchange
+// repeated 2–3 times in one process
+func c10HistoryTraffic(r *hx.Rng) hx.Case {
+	st := func() any { return c10J(hx.Pick(r, c10StatePool)) }
+	plain := func() any { return c10J(hx.Pick(r, []string{`{"type":"string"}`, `{}`, `{"type":"string","pattern":"^[a-z]+$"}`})) }
+	pick := func() any {
+		if r.Chance(55) {
+			return st()
+		}
+		return plain()
+	}
+	method := hx.Pick(r, []string{"post", "put", "get"})
+	op := map[string]any{
+		"parameters": []any{
+			map[string]any{"name": "q", "in": "query", "schema": pick()},
+			map[string]any{"name": "X-H", "in": "header", "schema": pick()},
+		},
+		"responses": map[string]any{"200": map[string]any{"description": "d",
+			"headers": map[string]any{"X-A": map[string]any{"schema": pick()}},
+			"content": map[string]any{"application/json": map[string]any{"schema": pick()}}}},
+	}
+	if method != "get" {
+		op["requestBody"] = map[string]any{"content": map[string]any{"application/json": map[string]any{"schema": st()}}}
+	}
+	if r.Chance(30) {
+		op["parameters"] = append(op["parameters"].([]any), map[string]any{"name": "x", "in": "path", "required": true, "schema": st()})
+	}
+	tpl := "/a"
+	path := "/a"
+	if len(op["parameters"].([]any)) == 3 {
+		tpl, path = "/a/{x}", "/a/"+hx.Pick(r, []string{"abc", "tmp-x", "5"})
+	}
+	doc := map[string]any{"openapi": "3.0.0", "info": map[string]any{"title": "t", "version": "1"},
+		"paths": map[string]any{tpl: map[string]any{method: op}}}
+	u := &url.URL{Scheme: "http", Host: "h", Path: path}
+	req := map[string]any{"method": strings.ToUpper(method), "scheme": "http", "host": "h", "path": path, "rawURL": u.String(),
+		"query": hx.Pick(r, []string{"q=abc", "q=tmp-x", "q=abc&q=x", "", "q="}), "headers": []any{[]any{"X-H", hx.Pick(r, []string{"abc", "tmp-x", ""})}},
+		"ct": "application/json", "body": hx.Pick(r, c10StateBodies)}
+	resp := map[string]any{"status": 200, "ct": "application/json", "body": hx.Pick(r, c10StateBodies),
+		"headers": []any{[]any{"X-A", hx.Pick(r, []string{"abc", "tmp-x"})}}}
+	opts := map[string]any{"multi": r.Chance(50), "skipDefaults": r.Chance(20), "middleware": r.Chance(25), "vhandler": r.Chance(10), "strict": r.Chance(30)}
+	return hx.Case{"op": "traffic", "doc": doc, "router": hx.Pick(r, []string{"legacy", "gorilla"}), "req": req, "resp": resp, "opts": opts,
+		"repeat": 2 + r.Intn(2)}
 }
 
 var c10ServerPool = []string{
@@ -1797,7 +1919,7 @@ func shrinkC10(c hx.Case) []hx.Case {
 	case "traffic":
 		doc, _ := c["doc"].(map[string]any)
 		rq, _ := c["req"].(map[string]any)
-		costly = c10DocHasRefCycle(doc) || c10HugeIndex(jstr(rq, "query"))
+		costly = c10DocHasRefCycle(doc) || c10HugeIndex(jstr(rq, "query")) || c10Repeat(c) >= 2
 	}
 	if costly {
 		c10CostlyShrinkRounds++
